@@ -197,7 +197,8 @@ fn drive_engine(id: &str, flavour: &str, rng: &mut Rng, maxops: u64) -> Runner {
     let nv = if flavour == "multi" { 2 } else { 1 };
     // pool variants: the standard price-10 pool, and pools at / below price 1 (x*y kept <= 1.2e9 for TLC)
     let (px, py) = *rng.pick(&[(100000i64, 10000i64), (100000, 10000), (100000, 10000), (100000, 10000),
-                               (30000, 30000), (20000, 50000), (12000, 90000), (250000, 4000)]);
+                               (30000, 30000), (20000, 50000), (12000, 90000), (250000, 4000),
+                               (1000, 162), (2500, 700), (700, 2500)]);
     let mut vs = vec![];
     for _ in 0..nv {
         vs.push(json!({"x": px, "y": py, "toll": toll, "spread": spread, "fluct": fluct, "period": 3600, "hcap": hcap, "oicap": oicap}));
